@@ -47,6 +47,7 @@ def check(ctx, only_h1: bool = False, h1_rule: str = "C13-H1") -> None:
         ctx.rule("C13-H4", "demotion stores solved := False and an issue naming the threshold; keeping stores nothing", 2)
     if not only_h1:
         ctx.rule("C13-H5", "confidence_threshold is consumed once; benchmark uses the same >=", 3)
+    rule_h10(ctx)
     solved, issue, conf = pl.solved_col.text, pl.issue_col.text, texts(ctx.balancer.get("__confidence_col"))
     conf_store = [s for s in st.stores if s.keytexts & conf and s.func is f]
     ctx.require(conf_store, "predict no longer stores the confidence column")
@@ -369,6 +370,36 @@ def check(ctx, only_h1: bool = False, h1_rule: str = "C13-H1") -> None:
     from . import c03
 
     c03.rule_v8(ctx, pl, "C13-H8")
+
+
+def rule_h10(ctx) -> None:
+    """The confidence, the demotion and the issue are written *into the row dicts* the pipeline holds; nobody reads
+    predict's return value.  A function that writes row fields must therefore run in this process: dispatched through
+    joblib (`delayed(f)(rows)`), it gets pickled copies under the default backend and its writes are lost."""
+    ctx.rule("C13-H10", "the code that writes confidence / verdict into the rows is not dispatched to worker processes", 1)
+    prog = ctx.prog
+    cls = prog.cls("synrbl.confidence_prediction.ConfidencePredictor")
+    n = 0
+    for m in cls.methods.values():
+        for c in [x for x in own_nodes(m.node) if isinstance(x, ast.Call) and isinstance(x.func, ast.Name) and x.func.id == "delayed" and x.args]:
+            n += 1
+            tgt = c.args[0]
+            g = None
+            if isinstance(tgt, ast.Attribute) and isinstance(tgt.value, ast.Name) and tgt.value.id == m.params[0]:
+                g = prog.lookup_method(cls, tgt.attr)
+            elif isinstance(tgt, ast.Name):
+                g = prog.functions.get(m.module.name + "." + tgt.id)
+            writes = []
+            if g is not None:
+                for a in own_nodes(g.node):
+                    if isinstance(a, ast.Assign) and any(isinstance(t, ast.Subscript) and isinstance(t.value, ast.Name) for t in a.targets):
+                        writes.append(a)
+            ok = not writes
+            ctx.instance("C13-H10", "%s dispatches %s through joblib; it writes %d subscripted field(s)" % (m.name, unparse(tgt), len(writes)), m.loc(c), ok=ok)
+            if not ok:
+                ctx.finding("C13-H10", "ConfidencePredictor.%s:row-writes-in-workers" % m.name, m.loc(c), "%s runs %s in joblib workers although it writes into the rows it is given (%s): the workers change pickled copies, so the pipeline's rows get no confidence and are never demoted" % (m.name, unparse(tgt), unparse(writes[0])[:50]))
+    if n == 0:
+        ctx.instance("C13-H10", "the confidence filter dispatches nothing through joblib", cls.methods["predict"].loc() if "predict" in cls.methods else "", ok=True)
 
 
 def rule_h9(ctx) -> None:
